@@ -204,6 +204,7 @@ class debug_logging(object):
         self.old = (self.logger.level, self.logger.propagate)
         self.handler = Sink()
         self.logger.addHandler(self.handler)
+        logging.getLogger().addHandler(self.handler)  # pool loggers are named by the user: keep logging's last resort (stderr) out of it
         self.logger.setLevel(logging.DEBUG)
         self.logger.propagate = False
         self.disabled = logging.root.manager.disable
@@ -213,6 +214,9 @@ class debug_logging(object):
     def __exit__(self, *exc):
         if self.on:
             self.logger.removeHandler(self.handler)
+            import logging as _logging
+
+            _logging.getLogger().removeHandler(self.handler)
             self.logger.setLevel(self.old[0])
             self.logger.propagate = self.old[1]
             import logging
